@@ -740,4 +740,110 @@ def chkMoveOps (stride : Nat) (perItem : List String) : G (List String) := do
                             break
   return out
 
+/-- zugzwang-prone small endings (kings close to each other, pawns, at most one minor or rook):
+    where null-move pruning is most likely to go wrong -/
+def zugPosition : Nat → G (Option Spec.Position)
+  | 0 => return none
+  | tries + 1 => do
+    let mat ← pick [[(Color.white, Kind.pawn)], [(Color.white, Kind.pawn), (Color.black, Kind.pawn)],
+      [(Color.white, Kind.pawn), (Color.white, Kind.pawn)], [(Color.white, Kind.pawn), (Color.white, Kind.pawn), (Color.black, Kind.pawn)],
+      [(Color.white, Kind.rook)], [(Color.white, Kind.rook), (Color.black, Kind.pawn)], [(Color.white, Kind.knight), (Color.white, Kind.pawn)],
+      [(Color.white, Kind.bishop), (Color.white, Kind.pawn)], [(Color.white, Kind.queen), (Color.black, Kind.pawn)],
+      [(Color.white, Kind.rook), (Color.black, Kind.knight)], [(Color.white, Kind.pawn), (Color.black, Kind.pawn), (Color.black, Kind.pawn)],
+      [(Color.white, Kind.queen)], [(Color.white, Kind.rook), (Color.white, Kind.pawn), (Color.black, Kind.rook)]]
+    let swap ← chance 1 2
+    let col (c : Color) : Color := if swap then c.opp else c
+    let mut P : Spec.Position :=
+      { cells := Array.replicate 64 none, side := .white, wks := false, wqs := false, bks := false, bqs := false, ep := none }
+    let f ← below 8
+    let edge ← below 4
+    let bk : Spec.Sq := match edge with | 0 => ⟨f, 0⟩ | 1 => ⟨f, 7⟩ | 2 => ⟨0, f⟩ | _ => ⟨7, f⟩
+    let wk ← near bk 2
+    if wk == bk then return ← zugPosition tries
+    P := (P.put wk (some ⟨col .white, .king⟩)).put bk (some ⟨col .black, .king⟩)
+    for (c, k) in mat do
+      let s ← if ← chance 2 3 then near bk 3 else pure (⟨← below 8, ← below 8⟩ : Spec.Sq)
+      if (P.at s).isNone && !(k == .pawn && (s.rank == 0 || s.rank == 7)) then
+        P := P.put s (some ⟨col c, k⟩)
+    let side ← if ← chance 1 2 then pure Color.white else pure Color.black
+    P := { P with side := side }
+    if Spec.LegalPosition P && !(Spec.legalMoves P).isEmpty then return some P else zugPosition tries
+
+def zugOps (n : Nat) (sops : List String) : G (List String) := do
+  let mut out : List String := []
+  for _ in [0:n] do
+    match ← zugPosition 200 with
+    | some P => out := out ++ [s!"pos position fen {Spec.toFen P 0 1}"] ++ sops
+    | none => pure ()
+  return out
+
+/-- HOME-ROOK LATTICE: both kings and all four rooks at home with all four rights; one extra piece of
+    every kind and colour on every square; every legal move of the side to move that CAPTURES a rook
+    on a corner (by any piece, from any square: corner to corner along the long diagonal, along the
+    edge, knight jumps, pawn captures with each promotion) or MOVES a rook / the king off its home
+    square — followed by generation from the generated successor (rights must be gone exactly as
+    the rules say, no castling with a missing or foreign rook) -/
+def rightsLattice (perItem : List String) : G (List String) := do
+  let mut out : List String := []
+  let empty : Spec.Position :=
+    { cells := Array.replicate 64 none, side := .white, wks := true, wqs := true, bks := true, bqs := true, ep := none }
+  let base := (((((empty.put ⟨4, 0⟩ (some ⟨.white, .king⟩)).put ⟨4, 7⟩ (some ⟨.black, .king⟩)).put ⟨0, 0⟩ (some ⟨.white, .rook⟩)).put
+    ⟨7, 0⟩ (some ⟨.white, .rook⟩)).put ⟨0, 7⟩ (some ⟨.black, .rook⟩)).put ⟨7, 7⟩ (some ⟨.black, .rook⟩)
+  let corners : List Spec.Sq := [⟨0, 0⟩, ⟨7, 0⟩, ⟨0, 7⟩, ⟨7, 7⟩]
+  let homes : List Spec.Sq := corners ++ [⟨4, 0⟩, ⟨4, 7⟩]
+  -- the base and its four variants with one corner vacated (that right gone), so that the extra piece
+  -- can stand ON a corner (corner-to-corner captures along the long diagonal)
+  let vacate (q : Spec.Sq) : Spec.Position :=
+    let B := base.put q none
+    { B with wqs := B.wqs && q != ⟨0, 0⟩, wks := B.wks && q != ⟨7, 0⟩, bqs := B.bqs && q != ⟨0, 7⟩, bks := B.bks && q != ⟨7, 7⟩ }
+  let variants := base :: corners.map vacate
+  -- part 1: the extra piece captures a rook on a corner
+  for V in variants do
+    for c in [Color.white, Color.black] do
+      for k in [Kind.queen, Kind.rook, Kind.bishop, Kind.knight, Kind.pawn] do
+        for r in [0:8] do
+          for f in [0:8] do
+            let s : Spec.Sq := ⟨f, r⟩
+            if (V.at s).isNone && !(k == .pawn && (r == 0 || r == 7)) then
+              let P := { (V.put s (some ⟨c, k⟩)) with side := c }
+              if Spec.LegalPosition P then
+                for m in Spec.legalMoves P do
+                  if m.src == s && corners.contains m.dst && (P.at m.dst).isSome then
+                    out := out ++ [fenLine P 0 1, s!"pick {Spec.moveText m}"] ++ perItem
+  -- part 2: kings and rooks leave home or capture each other along the edges
+  for V in variants do
+    for c in [Color.white, Color.black] do
+      let P := { V with side := c }
+      if Spec.LegalPosition P then
+        for m in Spec.legalMoves P do
+          if homes.contains m.src then
+            out := out ++ [fenLine P 0 1, s!"pick {Spec.moveText m}"] ++ perItem
+  return out
+
+/-- castling with EVERY subset of the four rights set (rooks and kings at home, so every subset is a
+    legal position): each castling move of the side to move, then generation from the successor.
+    The key of the successor must lose exactly the rights that were held. -/
+def castleRightsLattice (perItem : List String) : G (List String) := do
+  let mut out : List String := []
+  let empty : Spec.Position :=
+    { cells := Array.replicate 64 none, side := .white, wks := false, wqs := false, bks := false, bqs := false, ep := none }
+  let base := (((((empty.put ⟨4, 0⟩ (some ⟨.white, .king⟩)).put ⟨4, 7⟩ (some ⟨.black, .king⟩)).put ⟨0, 0⟩ (some ⟨.white, .rook⟩)).put
+    ⟨7, 0⟩ (some ⟨.white, .rook⟩)).put ⟨0, 7⟩ (some ⟨.black, .rook⟩)).put ⟨7, 7⟩ (some ⟨.black, .rook⟩)
+  for mask in [0:16] do
+    for c in [Color.white, Color.black] do
+      for epf in [none, some (3 : Nat)] do
+        -- optionally a pawn of the side that just moved on its 4th rank with a pending en passant target
+        let P0 := { base with wks := mask % 2 == 1, wqs := (mask / 2) % 2 == 1, bks := (mask / 4) % 2 == 1, bqs := (mask / 8) % 2 == 1, side := c }
+        let P := match epf with
+          | none => P0
+          | some f =>
+            let r4 : Nat := if c == Color.white then 4 else 3
+            let r3 : Nat := if c == Color.white then 5 else 2
+            { (P0.put ⟨f, r4⟩ (some ⟨c.opp, .pawn⟩)) with ep := some ⟨f, r3⟩ }
+        if Spec.LegalPosition P then
+          for m in Spec.legalMoves P do
+            if Spec.isCastle P m then
+              out := out ++ [fenLine P 0 1, s!"pick {Spec.moveText m}"] ++ perItem
+  return out
+
 def runG {α : Type} (seed : Nat) (g : G α) : α := (g.run ⟨UInt64.ofNat seed⟩).1
